@@ -50,7 +50,7 @@ func init() {
 func runC11(c *Ctx) {
 	r := c.R
 	r.Rule("R11-exact", "every table store with an exact bound stores a value that is strictly inside the window the node was searched with on that path: an interior store only after some move raised alpha above the incoming bound, a leaf store only when alpha < score < beta", 2)
-	r.Rule("R11-hit", "a table hit ends the search of a node only when the entry is exact and its depth equals the requested depth, and never at the root", 1)
+	r.Rule("R11-hit", "a table hit ends the search of a node only when the entry is exact and its depth equals the requested depth, and never at the root; a lookup verifies the full hash of the entry it returns and indexes the slot by hash & mask", 1+4)
 	r.Rule("R11-stores", "nothing computed from a cut-short child is stored, and the interior store is exact only after the move loop ran to exhaustion (rules of C12, re-decided here)", 3)
 
 	m := newSearchModel(c, "R11-exact")
@@ -63,6 +63,22 @@ func runC11(c *Ctx) {
 		m.children[f] = true
 	}
 	c.guard("R11-exact", func() { c11Exact(c, m, rec) })
+	// a hit is a hit for *this* position: Read verifies the full hash on the entry it returns and indexes
+	// the slot by hash & mask (rules of C17, re-decided here; the other C17 rules are about concurrency)
+	c.guard("R11-hit", func() {
+		drop := func(names []string, f func()) {
+			for _, n := range names {
+				g, name := f, n
+				f = func() { r.WithAlias(name, "-", g) }
+			}
+			f()
+		}
+		drop([]string{"R17-immutable", "R17-replace", "R17-used", "R17-wrappers", "R17-range"}, func() {
+			r.WithAlias("R17-single-load", "R11-hit", func() {
+				r.WithAlias("R17-slots", "R11-hit", func() { runC17(c) })
+			})
+		})
+	})
 	c.guard("R11-stores", func() {
 		r.WithAlias("R12-poll", "-", func() {
 			r.WithAlias("R12-nowrite", "R11-stores", func() {
